@@ -50,15 +50,17 @@ def run(tier):
         bs = max(len(r) for r in tabs.values())   # smaller than the join output, not than a table chunk (C03 finding)
         for c in [{"partitions": 4, "batch_size": bs, "hash_joins": True, "threads": 4},
                   {"partitions": 4, "batch_size": bs, "hash_joins": False, "threads": 4},
-                  {"partitions": 1, "hash_joins": True},
                   # small table chunks + small batches: several probe/build batches from small tables
                   {"partitions": 1, "batch_size": 4, "hash_joins": True, "threads": 2, "_chunk": 4},
                   {"partitions": 2, "batch_size": 4, "hash_joins": True, "threads": 4, "_chunk": 4},
                   {"partitions": 2, "batch_size": 4, "hash_joins": False, "threads": 4, "_chunk": 4}]:
+            c = dict(c)
             chunk = c.pop("_chunk", None)
             for qq in queries:
-                if qq["tag"][1] in ("true", "ne", "none") or qq["tag"][0] == "three":
-                    continue   # quadratic outputs: judged on the small inputs only
+                heavy = qq["tag"][1] in ("eq1", "eq_lt", "exprkey", "eq2", "in_where", "notin_where", "exists_corr",
+                                         "notexists_corr", "lt2_eq") or qq["tag"][0].startswith("lateral")
+                if not heavy or (tier == "quick" and qq["tag"][1] in ("eq2", "exprkey") and chunk is None):
+                    continue
                 run_.add("/".join(qq["tag"]) + "@" + name, qq["q"], db, c,
                          extra={"knobs": {"table_chunk_capacity": chunk}} if chunk else None)
     run_.execute()
